@@ -15,10 +15,34 @@ from harness.runner import Check
 use_repo()
 
 
+def _script_of(ed, a, b):
+    """Character script (event language of StringScript) of a refined EditDistance."""
+    from graphtage.edits import Insert, Match, Remove
+    ev = []
+    subs = list(ed.edits())
+    fidx = {id(n): k + 1 for k, n in enumerate(ed.from_node.children())}
+    tidx = {id(n): k + 1 for k, n in enumerate(ed.to_node.children())}
+    for s in subs:
+        if isinstance(s, Remove):
+            ev.append({"e": "remove", "i": fidx.get(id(s.from_node), 0)})
+        elif isinstance(s, Insert):
+            ev.append({"e": "insert", "j": tidx.get(id(s.from_node), 0)})
+        elif isinstance(s, Match):
+            i, j = fidx.get(id(s.from_node), 0), tidx.get(id(s.to_node), 0)
+            if s.bounds().upper_bound == 0:
+                ev.append({"e": "keep", "i": i, "j": j})
+            else:
+                ev.append({"e": "subst", "i": i, "j": j})
+        else:
+            ev.append({"e": "raise", "exc": "unexpected sub-edit %s" % type(s).__name__})
+    ev.append({"e": "end"})
+    return ev
+
+
 def char_events(a, b, via):
     """Character script of the real code for strings a -> b (code points), in the event language of StringScript."""
     import graphtage
-    from graphtage.edits import Insert, Match, Remove
+    from graphtage.edits import Match
     from harness.watchdog import Expired, deadline
     sa, sb = "".join(map(chr, a)), "".join(map(chr, b))
     ev = []
@@ -45,23 +69,7 @@ def char_events(a, b, via):
                 ed = graphtage.graphtage.string_edit_distance(sa, sb)
                 while ed.tighten_bounds():
                     pass
-            subs = list(ed.edits())
-            fidx = {id(n): k + 1 for k, n in enumerate(ed.from_node.children())}
-            tidx = {id(n): k + 1 for k, n in enumerate(ed.to_node.children())}
-            for s in subs:
-                if isinstance(s, Remove):
-                    ev.append({"e": "remove", "i": fidx.get(id(s.from_node), 0)})
-                elif isinstance(s, Insert):
-                    ev.append({"e": "insert", "j": tidx.get(id(s.from_node), 0)})
-                elif isinstance(s, Match):
-                    i, j = fidx.get(id(s.from_node), 0), tidx.get(id(s.to_node), 0)
-                    if s.bounds().upper_bound == 0:
-                        ev.append({"e": "keep", "i": i, "j": j})
-                    else:
-                        ev.append({"e": "subst", "i": i, "j": j})
-                else:
-                    ev.append({"e": "raise", "exc": "unexpected sub-edit %s" % type(s).__name__})
-            ev.append({"e": "end"})
+            ev = _script_of(ed, a, b)
     except Expired:
         ev.append({"e": "raise", "exc": "watchdog"})
     except Exception as ex:
@@ -69,9 +77,57 @@ def char_events(a, b, via):
     return ev
 
 
+def side_by_side(group):
+    """Several string edits ALIVE AT ONCE (as the candidate pairings of renamed keys are inside a mapping diff): all are
+    created first, then refined in turns, one step each, and only then are their scripts read.  Returns one event list per
+    pair of the group."""
+    import graphtage
+    from harness.watchdog import Expired, deadline
+    out = [[] for _ in group]
+    try:
+        with deadline(30.0):
+            eds = [graphtage.graphtage.string_edit_distance("".join(map(chr, a)), "".join(map(chr, b))) for a, b in group]
+            live = list(range(len(eds)))
+            n = 0
+            while live:
+                live = [k for k in live if eds[k].tighten_bounds()]
+                n += 1
+                if n > 100000:
+                    raise RuntimeError("does not converge")
+            for k, (a, b) in enumerate(group):
+                out[k] = _script_of(eds[k], a, b)
+    except Expired:
+        out = [[{"e": "raise", "exc": "watchdog"}] for _ in group]
+    except Exception as ex:
+        out = [[{"e": "raise", "exc": "%s: %s" % (type(ex).__name__, str(ex)[:100])}] for _ in group]
+    return out
+
+
 def _job(args):
     a, b, via = args
     return char_events(a, b, via)
+
+
+def _group_job(group):
+    return side_by_side(group)
+
+
+def same_shape_groups(r, n):
+    """Groups of 2-4 pairs of strings whose (from, to) lengths coincide and that share neither a first nor a last
+    character (so that the trimmed problems have the same shape too), over small alphabets."""
+    groups = []
+    for _ in range(n):
+        la, lb = r.randint(3, 9), r.randint(3, 9)
+        alpha = r.choice(("abc", "abcd", "ab", "aeiou", "xy\u00e9"))
+        g = []
+        while len(g) < r.randint(2, 4):
+            a = [ord(r.choice(alpha)) for _ in range(la)]
+            b = [ord(r.choice(alpha)) for _ in range(lb)]
+            if a[0] == b[0] or a[-1] == b[-1]:
+                continue
+            g.append((a, b))
+        groups.append(g)
+    return groups
 
 
 def _init():
@@ -174,6 +230,17 @@ def run():
     ctx = mp.get_context("fork")
     with ctx.Pool(min(16, os.cpu_count() or 4), initializer=_init, maxtasksperchild=2000) as pool:
         results = pool.map(_job, jobs, chunksize=64)
+    # several edits alive at once, refined in turns
+    groups = same_shape_groups(rng("c11-groups"), 250 if t == "quick" else 2500)
+    with ctx.Pool(min(16, os.cpu_count() or 4), initializer=_init, maxtasksperchild=2000) as pool:
+        gres = pool.map(_group_job, groups, chunksize=8)
+    group_of = {}
+    for g, evs in zip(groups, gres):
+        for k, ((a, b), ev) in enumerate(zip(g, evs)):
+            group_of[len(jobs)] = (g, k)
+            jobs.append((a, b, "side-by-side"))
+            results.append(ev)
+    chk.extra["side_by_side_groups"] = len(groups)
     traces = [{"a": list(a), "b": list(b), "ev": ev} for (a, b, _), ev in zip(jobs, results)]
     shards = 8
     from concurrent.futures import ThreadPoolExecutor
@@ -196,7 +263,10 @@ def run():
                 raise MachineryError("string trace rejected by %s" % v["clause"])
             sa, sb = "".join(map(chr, a)), "".join(map(chr, b))
             sig = {"clause": v["clause"], "via": via}
-            chk.violation(sig, {"a": a, "b": b, "via": via},
+            rp = {"a": a, "b": b, "via": via}
+            if i in group_of:
+                rp["group"], rp["k"] = [[list(x), list(y)] for x, y in group_of[i][0]], group_of[i][1]
+            chk.violation(sig, rp,
                           "%r -> %r via %s: clause '%s' at event %d; script %s" % (
                               sa, sb, via, v["clause"], v["step"], json.dumps(traces[i]["ev"])[:400]))
     mid = len(traces) // 2
@@ -205,7 +275,8 @@ def run():
     chk.rule = ("cases = all pairs of strings over {a,b} up to length %d and over {a,b,c} up to length %d (enumerated by "
                 "TLC), plus long pairs (33-64 characters: a short common block moved across an otherwise rewritten string, rotations) and "
                 "random pairs up to length %d (tiny and large alphabets, mutated copies, shared prefix/suffix, "
-                "reversals, repeats, non-ASCII); each diffed through StringNode.edits (2/3) or string_edit_distance (1/3); "
+                "reversals, repeats, non-ASCII); each diffed through StringNode.edits (2/3) or string_edit_distance (1/3); plus groups of 2-4 "
+                "same-shaped pairs whose edits are all created first and then refined in turns (side-by-side); "
                 "distinct by (a, b, entry point); non-trivial = both non-empty and different" % (bin_len, tern_len, rand_len))
     chk.assumptions = ["characters are mapped to script positions by node identity in the per-character lists",
                        "LCS is computed by TLC from the textbook recurrence on the recorded strings"]
@@ -218,7 +289,10 @@ def replay(path):
     rp = doc["replay"]
     corpus._quiet_env()
     chk = Check("C11", "model_checking")
-    ev = char_events(rp["a"], rp["b"], rp["via"])
+    if rp["via"] == "side-by-side":
+        ev = side_by_side([(a, b) for a, b in rp["group"]])[rp["k"]]
+    else:
+        ev = char_events(rp["a"], rp["b"], rp["via"])
     verdicts, st = tlc.validate_traces("StringScriptTrace", [{"a": rp["a"], "b": rp["b"], "ev": ev}],
                                        constants={"Alphabet": {1}, "MaxLen": 0})
     chk.add_trace_stats(st, "StringScriptTrace", 1)
